@@ -1,36 +1,41 @@
-/* C15: Subprocess::communicate, parent side, against a nondeterministic OS model.
+/* C15: Subprocess::communicate, parent side, against an OS model (child automaton + pipes + clock) written here.
  *
- * Cell (concrete, one query each): W = number of stdout bytes, EVS = the child's script as a string of event kinds,
- * IN_N = stdin payload size, TIMEOUT (0 = no deadline), optionally SCHED = when the events happen.
- * Symbolic inside a cell: the bytes, the chunk sizes of the child's writes (each >= 1, sum W), how many bytes every
- * read()/write() moves (1..possible), the wait status (any exit code / terminating signal), the clock, the stdin pipe
- * capacity and - unless SCHED is given - the OS call at which every child event happens.
+ * Cell (concrete, one query each): EVS = the child's script, SCHED = when its events happen, IN_N = stdin payload size,
+ * CAP = stdin pipe capacity, TIMEOUT (0 = no deadline, else microseconds, a multiple of 1000).
+ * Symbolic inside a cell: all stdout bytes, all payload bytes, how many bytes every read()/write()/child read moves
+ * (1..possible), the wait status (any exit code / terminating signal / core flag), every clock increment, and - for the
+ * events marked '*' in SCHED - the OS call at which the event happens (decided by a case split inside the harness: one
+ * execution of communicate per position, selected by symbolic inputs; every position gets its own, fully folded symbolic
+ * execution).
  *
- * Child script EVS, executed in order, event i not later than the parent's OS call number at[i] (OS calls = gettimeofday,
- * waitpid, poll, read, write; the child runs "inside" them) and earlier when a blocking call of the parent needs it
- * (the child is fair: it eventually does its next step):
- *   w  write the next chunk to stdout            c  close stdout
+ * Child script EVS, executed strictly in order; OS calls of the parent that "take time" are numbered 0,1,2,.. (gettimeofday,
+ * waitpid, poll, read, write); event i happens immediately before OS call number at[i] is served - or earlier when a blocking
+ * call of the parent cannot return otherwise (fair child: it eventually does its next step):
+ *   1..9 write that many bytes to stdout          c  close stdout
  *   r  read 1..all bytes waiting in its stdin (blocks while the pipe is empty and the parent holds the write end open)
  *   e  read stdin until end-of-file (blocks until the parent has closed the write end; consumes everything)
- *   k  close stdin                               x  exit (closes everything), wait status symbolic; always last
+ *   k  close stdin                                x  exit (closes everything), wait status symbolic; always the last event
+ * An event whose time has come but which blocks (r, e) delays itself and all later events.
  * Pipes: bytes written before exit/close stay readable; read() returns 1..min(requested, available), 0 at EOF (writer gone
- * and empty) and must not be called on an empty pipe with a live writer (it would block: assertion). The stdin pipe holds
- * at most CAP bytes (symbolic 1..IN_N); write() moves 1..min(n, room) bytes, fails with EPIPE once the child closed its
- * end, and must not be called without room (it would block: assertion). poll() reports POLLIN (data), POLLHUP (writer
- * gone), POLLOUT (room) and POLLERR (reader gone) exactly for that state; timeout -1 blocks until the child's next steps
- * make something ready - if the child cannot step or has nothing left to do: "deadlock" assertion; timeout 0 returns at
- * once; timeout > 0 either lets child steps make something ready in time or the full timeout elapses. waitpid(WNOHANG) = 0
- * until the exit, then the pid once (a second successful reap is an assertion); blocking waitpid runs the child to its
- * exit (cannot: deadlock assertion). kill(SIGKILL) ends the child at once; kill on a reaped child = ESRCH.
- * Clock: every value is a multiple of 1 ms (CLOCK_UNIT); any OS call may take 0..3 ms, a poll that times out takes at
- * least its timeout. (With a microsecond clock communicate's last millisecond is a busy loop of poll(0) calls - unbounded
- * in any model; the granularity is what bounds the loop. TIMEOUT is a multiple of 1 ms.)
+ * and empty) and must not be called on an empty pipe with a live writer (it would block for ever: assertion). The stdin
+ * pipe holds at most CAP bytes; write() moves 1..min(n, room) bytes, fails with EPIPE once the child closed its end, and
+ * must not be called without room. poll() reports POLLIN (data), POLLHUP (writer gone), POLLOUT (room), POLLERR (reader
+ * gone) exactly for that state; timeout -1 blocks until child steps make something ready - if the child cannot step or
+ * has nothing left to do: "deadlock" assertion; timeout 0 returns at once; timeout > 0 with nothing ready lets the whole
+ * timeout elapse (a child step during the wait is the same observation as that step just before the call, which the
+ * schedule covers). waitpid(WNOHANG) = 0 until the exit, then the pid, once; blocking waitpid runs the child to its exit
+ * (cannot: deadlock assertion). kill(SIGKILL) ends the child at once; kill on a reaped child = ESRCH.
+ * Clock (deadline cells only): tv_sec is constant, tv_usec a multiple of 1 ms that stays below 1 s; any OS call may take
+ * 0..3 ms (symbolic), a poll that times out additionally takes exactly its timeout. (With a microsecond clock the last
+ * millisecond before the deadline is a busy loop of poll(0) calls, unbounded in any model.)
  *
- * Oracle: no deadline: communicate returns (no exception) exactly the W bytes, in order. Always: at most TMAX OS calls
- * (no livelock), child reaped exactly once when the Subprocess is gone, every descriptor closed at most once, the fd
- * members are -1 exactly for closed descriptors, the stdin write end is closed as soon as the payload is delivered (before
- * the next OS call) and also when there is no payload; the cached status is the model's. With a deadline: an exception is
- * allowed only after gettimeofday returned a value >= first value + TIMEOUT, and only after the child was SIGKILLed. */
+ * Oracle: no deadline: communicate returns (no exception) exactly the bytes the child wrote, in order. Always: at most
+ * TMAX OS calls, child reaped exactly once when the Subprocess is gone, every descriptor closed at most once, the fd members
+ * are -1 exactly for closed descriptors, the stdin write end is closed before the next OS call once the payload is
+ * delivered (or once the write failed) and also when there is no payload; the child receives a prefix of the payload and
+ * all of it if it reads to EOF; the cached status is the model's. With a deadline: an exception is allowed only after
+ * gettimeofday returned a value >= first value + TIMEOUT, and only with the child SIGKILLed; after that observation the
+ * parent asks for the time at most once more. */
 #include "harness.h"
 #include "env_msg.h"
 #ifndef VERIF_NATIVE_REAL
@@ -57,9 +62,6 @@ uint8_t* X___errno_location(void);
 #define POLLHUP_ 16
 #define WNOHANG_ 1
 #define CLOCK_UNIT 1000u
-#ifndef W
-#define W 1
-#endif
 #ifndef IN_N
 #define IN_N 0
 #endif
@@ -67,7 +69,10 @@ uint8_t* X___errno_location(void);
 #define TIMEOUT 0
 #endif
 #ifndef EVS
-#define EVS "wx"
+#define EVS "1x"
+#endif
+#ifndef SCHED
+#define SCHED "00"
 #endif
 #ifndef CAP
 #define CAP (IN_N ? IN_N : 1) /* stdin pipe capacity in bytes */
@@ -75,40 +80,42 @@ uint8_t* X___errno_location(void);
 #ifndef TMAX
 #define TMAX 16
 #endif
-#define NEV ((int)sizeof(EVS) - 1)
-static const char evs[] = EVS;
-#ifdef SCHED
-static const char sched[] = SCHED; /* digit i = OS call index (base 36) at which event i happens at the latest */
+#ifndef WMAX
+#define WMAX 3
 #endif
+#define NEV ((int)sizeof(EVS) - 1)
+#define MAXEV 5
+static const char evs[] = EVS;
+static const char sched[] = SCHED; /* char i: OS call index (base 36) of event i, or '*' = every position (case split) */
 
-static uint8_t data[W + 1], payload[IN_N + 1], got_in[IN_N + 1];
-static uint64_t chunk[NEV + 1];
-static int at[NEV + 1];
+static uint8_t data[WMAX + 1], payload[IN_N + 1], got_in[IN_N + 1];
+static uint64_t cum[MAXEV + 1];    /* stdout bytes written once event i has happened */
+static uint64_t W;                 /* stdout bytes of the whole script */
+static int at[MAXEV + 1], due_[MAXEV + 1];
 static int next_ev;                /* child program counter */
 static uint64_t written, consumed; /* stdout pipe */
-static uint64_t delivered, child_read, in_cap; /* stdin pipe */
-static int out_writer_open = 1, in_reader_open = 1, exited, reaped, killed, reap_count;
-static uint32_t status;
+static uint64_t delivered, child_read; /* stdin pipe */
+static int out_writer_open, in_reader_open, exited, reaped, killed, reap_count, write_failed;
+static uint32_t status, status_in;
 static int t; /* OS call counter */
-static uint8_t mv2[TMAX + 1], mv3[TMAX + 1], fire_n[TMAX + 1]; /* per OS call: move a 2nd / a 3rd byte if possible; child steps during a timed poll */
+static uint8_t mv2[TMAX + 1], mv3[TMAX + 1]; /* per OS call: move a 2nd / a 3rd byte if possible */
 static uint8_t clk_inc[TMAX + 1];
-static uint64_t clock_us, first_clock, clock_seen_max;
-static int clock_read;
-static int closed_in, closed_out;
+static uint64_t clock0, clock_us, first_clock;
+static int clock_read, late_reads;
+static int closed_in, closed_out, kill9_calls;
 
+static void model_reset(void) {
+  next_ev = 0; written = consumed = 0; delivered = child_read = 0;
+  out_writer_open = 1; in_reader_open = 1; exited = reaped = killed = reap_count = write_failed = 0;
+  status = status_in; t = 0; clock_us = clock0; first_clock = 0; clock_read = late_reads = 0; closed_in = closed_out = kill9_calls = 0;
+  for (int i = 0; i < IN_N; i++) got_in[i] = 0;
+}
 static int tick(void) {
   ASSERT(t < TMAX, "BOUND: number of OS calls (no livelock inside the bound)");
   ASSUME(t < TMAX);
-  if (closed_in == 0 && IN_N > 0 && delivered == IN_N) ASSERT(0, "the stdin write end is closed as soon as the payload is delivered");
-  clock_us += (uint64_t)clk_inc[t] * CLOCK_UNIT;
+  if (!closed_in && IN_N > 0 && (delivered == IN_N || write_failed)) ASSERT(0, "the stdin write end is closed as soon as the payload is delivered or the write failed");
+  if (TIMEOUT) clock_us += (uint64_t)clk_inc[t] * CLOCK_UNIT;
   return t++;
-}
-static int child_can_step(void) {
-  if (exited || next_ev >= NEV) return 0;
-  char k = evs[next_ev];
-  if (k == 'r') return delivered > child_read || closed_in;
-  if (k == 'e') return closed_in;
-  return 1;
 }
 /* how many bytes one read()/write() moves: 1, 2 or 3 (solver's choice per OS call), never more than `lim` */
 static uint64_t moved(int j, uint64_t lim) {
@@ -117,31 +124,43 @@ static uint64_t moved(int j, uint64_t lim) {
   if (lim >= 3 && k == 2 && mv3[j]) k = 3;
   return k;
 }
-static void child_step(int j) { /* performs event next_ev (must be able to) */
+/* the child tries its next event; 1 = done (program counter advanced), 0 = nothing left / blocked. A blocked `e` still
+ * consumes what is in its stdin pipe. */
+static int child_try(int j) {
+  if (exited || next_ev >= NEV) return 0;
   char k = evs[next_ev];
-  if (k == 'w' || (k >= '1' && k <= '9')) { written += chunk[next_ev]; }
+  if (k >= '1' && k <= '9') { written = cum[next_ev]; }
   else if (k == 'c') { out_writer_open = 0; }
   else if (k == 'k') { in_reader_open = 0; }
-  else if (k == 'r') { child_read += moved(j, delivered - child_read); }
-  else if (k == 'e') { child_read = delivered; }
+  else if (k == 'r') {
+    if (delivered > child_read) child_read += moved(j, delivered - child_read);
+    else if (!closed_in) return 0;
+  }
+  else if (k == 'e') { child_read = delivered; if (!closed_in) return 0; }
   else { exited = 1; out_writer_open = 0; in_reader_open = 0; }
   next_ev++;
+  return 1;
 }
-static void child_run(int j) { /* events scheduled for OS call j or earlier happen now */
-  for (int i = 0; i < NEV; i++)
-    if (i == next_ev && at[i] <= j && child_can_step()) child_step(j);
+static void child_run(int j) { /* events scheduled for OS call j or earlier happen now (and with them every earlier event) */
+  int due = 0;
+  for (int i = MAXEV - 1; i >= 0; i--) { if (i < NEV && at[i] <= j) due = 1; due_[i] = due; }
+  for (int i = 0; i < MAXEV; i++)
+    if (i < NEV && i == next_ev && due_[i]) child_try(j);
 }
 
 uint32_t STUB(gettimeofday)(uint8_t* tv, uint8_t* tz) {
   (void)tz;
   ASSERT(!reaped, "the clock is not consulted for a child that has been reaped");
   ASSUME(!reaped);
+  ASSERT(late_reads < 2, "after seeing the deadline passed the parent reads the clock at most once more");
+  ASSUME(late_reads < 2);
   int j = tick();
   child_run(j);
+  ASSUME(clock_us < 1000000u);
   if (!clock_read) { clock_read = 1; first_clock = clock_us; }
-  if (clock_us > clock_seen_max) clock_seen_max = clock_us;
-  ((uint64_t*)tv)[0] = clock_us / 1000000u + 1000;
-  ((uint64_t*)tv)[1] = clock_us % 1000000u;
+  if (TIMEOUT && clock_us >= first_clock + TIMEOUT) late_reads++;
+  ((uint64_t*)tv)[0] = 1000;      /* tv_sec */
+  ((uint64_t*)tv)[1] = clock_us;  /* tv_usec */
   return 0;
 }
 struct pfd { int32_t fd; int16_t events; int16_t revents; };
@@ -152,7 +171,7 @@ static int16_t ready(int32_t fd, int16_t events) {
     if (!out_writer_open) r |= POLLHUP_;
   }
   if (fd == IN_FD && !closed_in) {
-    if ((events & POLLOUT_) && in_reader_open && delivered - child_read < in_cap) r |= POLLOUT_;
+    if ((events & POLLOUT_) && in_reader_open && delivered - child_read < CAP) r |= POLLOUT_;
     if (!in_reader_open) r |= POLLERR_;
   }
   return r;
@@ -170,19 +189,24 @@ uint32_t STUB(poll)(uint8_t* fds_, uint64_t n, uint32_t timeout_ms) {
   struct pfd* fds = (struct pfd*)fds_;
   ASSERT(!(reaped && timeout_ms != 0), "no waiting poll for a child that has been reaped");
   ASSUME(!(reaped && timeout_ms != 0));
+#if TIMEOUT
+  ASSERT((int32_t)timeout_ms >= 0 && (uint64_t)timeout_ms * 1000u <= TIMEOUT, "with a deadline poll never waits longer than the timeout");
+  ASSUME((int32_t)timeout_ms >= 0 && (uint64_t)timeout_ms * 1000u <= TIMEOUT);
+#else
+  ASSERT(timeout_ms == 0 || timeout_ms == (uint32_t)-1, "without a deadline poll blocks or does not wait at all");
+  ASSUME(timeout_ms == 0 || timeout_ms == (uint32_t)-1);
+#endif
   int j = tick();
   child_run(j);
   ASSERT(n <= 2, "at most two descriptors are polled");
   int cnt = poll_scan(fds, n);
   if (cnt == 0 && (int32_t)timeout_ms < 0) {
     /* blocks until child steps make something ready */
-    for (int i = 0; i < NEV; i++) if (cnt == 0 && child_can_step()) { child_step(j); cnt = poll_scan(fds, n); }
+    for (int i = 0; i <= MAXEV; i++) if (cnt == 0) { child_try(j); cnt = poll_scan(fds, n); }
     ASSERT(cnt != 0, "poll(-1) can never return: deadlock");
     ASSUME(cnt != 0);
   } else if (cnt == 0 && timeout_ms > 0) {
-    /* up to fire_n[j] child steps happen during the wait (stopping as soon as something is ready) */
-    for (int i = 0; i < NEV; i++) if (cnt == 0 && i < fire_n[j] && child_can_step()) { child_step(j); cnt = poll_scan(fds, n); }
-    if (cnt == 0) clock_us += (uint64_t)timeout_ms * 1000u; /* the whole timeout elapsed */
+    clock_us += (uint64_t)timeout_ms * 1000u; /* the whole timeout elapses */
   }
   return (uint32_t)cnt;
 }
@@ -197,7 +221,7 @@ uint64_t STUB(read)(uint32_t fd, uint8_t* buf, uint64_t n) {
     return 0;
   }
   uint64_t k = moved(j, avail < n ? avail : n);
-  for (uint64_t i = 0; i < W; i++) if (i < k) buf[i] = data[consumed + i];
+  for (uint64_t i = 0; i < WMAX; i++) if (i < k) buf[i] = data[consumed + i];
   consumed += k;
   return k;
 }
@@ -205,10 +229,10 @@ uint64_t STUB(write)(uint32_t fd, uint8_t* buf, uint64_t n) {
   int j = tick();
   child_run(j);
   ASSERT(fd == IN_FD && !closed_in, "write on the open stdin pipe");
-  ASSERT(n >= 1 && n <= IN_N - delivered, "write passes the undelivered rest of the payload");
-  ASSUME(n >= 1 && n <= IN_N - delivered);
-  if (!in_reader_open) { SET_ERRNO(32); return (uint64_t)-1; } /* EPIPE */
-  uint64_t room = in_cap - (delivered - child_read);
+  ASSERT(n >= 1 && n == IN_N - delivered, "write passes the undelivered rest of the payload");
+  ASSUME(n >= 1 && n == IN_N - delivered);
+  if (!in_reader_open) { write_failed = 1; SET_ERRNO(32); return (uint64_t)-1; } /* EPIPE */
+  uint64_t room = CAP - (delivered - child_read);
   ASSERT(room > 0, "blocking write on a full pipe (poll did not report it writable)");
   ASSUME(room > 0);
   uint64_t k = moved(j, room < n ? room : n);
@@ -217,14 +241,14 @@ uint64_t STUB(write)(uint32_t fd, uint8_t* buf, uint64_t n) {
   return k;
 }
 uint32_t STUB(waitpid)(uint32_t pid, uint8_t* st, uint32_t options) {
+  ASSERT(!reaped, "waitpid on a child that was already reaped");
+  ASSUME(!reaped);
   int j = tick();
   child_run(j);
   ASSERT(pid == PID, "waitpid on the child");
-  ASSERT(!reaped, "waitpid on a child that was already reaped");
-  ASSUME(!reaped);
   if (!exited) {
     if (options & WNOHANG_) return 0;
-    for (int i = 0; i < NEV; i++) if (!exited && child_can_step()) child_step(j);
+    for (int i = 0; i < MAXEV; i++) if (!exited) child_try(j);
     ASSERT(exited, "blocking waitpid can never return: deadlock");
     ASSUME(exited);
   }
@@ -235,6 +259,7 @@ uint32_t STUB(waitpid)(uint32_t pid, uint8_t* st, uint32_t options) {
 uint32_t STUB(kill)(uint32_t pid, uint32_t sig) {
   ASSERT(pid == PID, "kill on the child");
   if (reaped) { SET_ERRNO(3); return (uint32_t)-1; } /* ESRCH */
+  if (sig == 9) kill9_calls++;
   if (sig == 9 && !exited) { exited = 1; killed = 1; status = 9; out_writer_open = 0; in_reader_open = 0; }
   return 0;
 }
@@ -247,60 +272,75 @@ uint32_t STUB(close)(uint32_t fd) {
 
 static int b36(char c) { return c <= '9' ? c - '0' : c - 'a' + 10; }
 
-void harness(void) {
-  uint8_t out[W + 1];
+static void run_case(void) {
+  uint8_t out[WMAX + 1];
   int64_t st[3] = {-2, -2, -2};
-  in_bytes(data, W);
-  in_bytes(payload, IN_N);
-  status = (uint32_t)in_range(0, 0xFFFF);
-  ASSUME((status & 0x7F) != 0x7F);                       /* not "stopped" */
-  ASSUME((status & 0x7F) == 0 || (status >> 8) == 0);    /* exit code or terminating signal (+ core flag) */
-  in_cap = CAP;
-  /* chunk sizes: every write event writes >= 1 byte, together W */
-  uint64_t sum = 0;
-  int nwr = 0;
-  for (int i = 0; i < NEV; i++) {
-    chunk[i] = 0;
-    if (evs[i] == 'w') { chunk[i] = in_range(1, W ? W : 1); sum += chunk[i]; nwr++; }
-    else if (evs[i] >= '1' && evs[i] <= '9') { chunk[i] = (uint64_t)(evs[i] - '0'); sum += chunk[i]; nwr++; }
-  }
-  ASSUME(sum == W);
-  int prev = 0;
-  for (int i = 0; i < NEV; i++) {
-#ifdef SCHED
-    if (sched[i] != '?') at[i] = b36(sched[i]); else
-#endif
-    at[i] = (int)in_range(0, TMAX);
-    ASSUME(at[i] >= prev);
-    prev = at[i];
-  }
-  for (int j = 0; j <= TMAX; j++) {
-    mv2[j] = in_bool(); mv3[j] = in_bool();
-    fire_n[j] = (uint8_t)in_range(0, NEV);
-    clk_inc[j] = TIMEOUT ? (uint8_t)in_range(0, 3) : 0;
-  }
-  clock_us = (uint64_t)in_range(0, 5) * CLOCK_UNIT;
+  model_reset();
   int64_t r = w_communicate(IN_FD, OUT_FD, PID, payload, IN_N, TIMEOUT, out, sizeof(out), st);
   OBS(r); OBS(st[0]); OBS(st[1]); OBS(st[2]); OBS(t);
   ASSERT(reap_count == 1 && reaped, "the child has been reaped exactly once when the Subprocess is gone");
   ASSERT((st[1] == -1) == (closed_in != 0) && (st[1] == -1 || st[1] == IN_FD), "stdin_write_fd is -1 exactly when that descriptor was closed");
   ASSERT((st[2] == -1) == (closed_out != 0) && (st[2] == -1 || st[2] == OUT_FD), "stdout_read_fd is -1 exactly when that descriptor was closed");
   if (IN_N == 0) ASSERT(closed_in, "the unused stdin pipe was closed");
-  if (delivered == IN_N) ASSERT(closed_in, "stdin closed after complete delivery");
+  if (delivered == IN_N || write_failed) ASSERT(closed_in, "stdin closed after complete delivery / failed write");
+  ASSERT(child_read <= delivered && delivered <= IN_N, "the child reads what was delivered");
   for (uint64_t i = 0; i < IN_N; i++) if (i < delivered) ASSERT(got_in[i] == payload[i], "the child receives the payload bytes in order");
   if (r < 0) {
 #if TIMEOUT == 0
     ASSERT(0, "communicate without a deadline returns instead of throwing");
 #else
     ASSERT(r == -5, "only runtime_error is thrown");
-    ASSERT(clock_read && clock_seen_max >= first_clock + TIMEOUT, "communicate throws only when the deadline has really been reached");
-    ASSERT(killed, "a timed-out child is killed");
+    ASSERT(late_reads > 0, "communicate throws only after the clock was seen at or past the deadline");
+    ASSERT(kill9_calls == 1, "a timed-out child has been sent SIGKILL (once)");
+    ASSERT(killed || next_ev == NEV, "a child that was not killed ran its whole script");
 #endif
   } else {
     ASSERT(exited && !killed, "communicate returns normally only after the child exited by itself");
     ASSERT(next_ev == NEV, "the child ran its whole script");
+    for (int i = 0; i < NEV; i++) if (evs[i] == 'e') ASSERT(child_read == IN_N && delivered == IN_N, "a child that reads its stdin to EOF got the whole payload");
     ASSERT((uint64_t)r == W, "communicate returns every byte the child wrote (nothing lost at exit)");
-    if ((uint64_t)r == W) for (uint64_t i = 0; i < W; i++) ASSERT(out[i] == data[i], "communicate returns the child's bytes in order");
+    if ((uint64_t)r == W) for (uint64_t i = 0; i < WMAX; i++) if (i < W) ASSERT(out[i] == data[i], "communicate returns the child's bytes in order");
     ASSERT(st[0] == (int64_t)status, "the cached wait status is the child's");
   }
+}
+
+void harness(void) {
+  int lo[MAXEV], hi[MAXEV], sel[MAXEV];
+  in_bytes(data, WMAX);
+  in_bytes(payload, IN_N);
+  status_in = (uint32_t)in_range(0, 0xFFFF);
+  ASSUME((status_in & 0x7F) != 0x7F);                        /* not "stopped" */
+  ASSUME((status_in & 0x7F) == 0 || (status_in >> 8) == 0);  /* exit code, or terminating signal (+ core flag) */
+  W = 0;
+  for (int i = 0; i < MAXEV; i++) {
+    if (i < NEV && evs[i] >= '1' && evs[i] <= '9') W += (uint64_t)(evs[i] - '0');
+    cum[i] = W;
+  }
+  ASSERT(W <= WMAX && NEV <= MAXEV && NEV >= 1 && evs[NEV - 1] == 'x', "BOUND: script shape");
+  for (int j = 0; j <= TMAX; j++) {
+    mv2[j] = in_bool(); mv3[j] = in_bool();
+    clk_inc[j] = TIMEOUT ? (uint8_t)in_range(0, 3) : 0;
+  }
+  clock0 = TIMEOUT ? (uint64_t)in_range(0, 5) * CLOCK_UNIT : 0;
+  /* schedule: concrete positions from SCHED; a '*' position ranges over [previous event's position, next concrete position
+   * (or TMAX)] and is chosen by a symbolic selector; every choice is executed separately below */
+  for (int i = 0; i < MAXEV; i++) {
+    if (i < NEV && sched[i] != '*') { lo[i] = hi[i] = b36(sched[i]); sel[i] = lo[i]; }
+    else if (i < NEV) { lo[i] = 0; hi[i] = TMAX; sel[i] = (int)in_range(0, TMAX); }
+    else { lo[i] = hi[i] = sel[i] = 0; }
+  }
+  for (int i = MAXEV - 2; i >= 0; i--) if (i + 1 < NEV && hi[i] > hi[i + 1]) hi[i] = hi[i + 1];
+  for (int i = 1; i < MAXEV; i++) if (i < NEV && lo[i] < lo[i - 1]) lo[i] = lo[i - 1];
+  int ran = 0;
+  for (int a0 = 0; a0 <= TMAX; a0++) if (a0 >= lo[0] && a0 <= hi[0])
+    for (int a1 = 0; a1 <= TMAX; a1++) if (a1 >= lo[1] && a1 <= hi[1] && (NEV < 2 || a1 >= a0))
+      for (int a2 = 0; a2 <= TMAX; a2++) if (a2 >= lo[2] && a2 <= hi[2] && (NEV < 3 || a2 >= a1))
+        for (int a3 = 0; a3 <= TMAX; a3++) if (a3 >= lo[3] && a3 <= hi[3] && (NEV < 4 || a3 >= a2))
+          for (int a4 = 0; a4 <= TMAX; a4++) if (a4 >= lo[4] && a4 <= hi[4] && (NEV < 5 || a4 >= a3))
+            if (sel[0] == a0 && sel[1] == a1 && sel[2] == a2 && sel[3] == a3 && sel[4] == a4) {
+              at[0] = a0; at[1] = a1; at[2] = a2; at[3] = a3; at[4] = a4;
+              run_case();
+              ran = 1;
+            }
+  ASSUME(ran);
 }
